@@ -784,7 +784,30 @@ func raceRuns(res *corr.Result, seed uint64, tier string, known corr.KnownFile, 
 	if tier == "thorough" {
 		n, rep = 1500, 60
 	}
-	out, _ := exec.Command(bin, fmt.Sprint(seed), fmt.Sprint(n), fmt.Sprint(rep)).Output()
+	limit := 90 * time.Second
+	if tier == "thorough" {
+		limit = 30 * time.Minute
+	}
+	cmd := exec.Command(bin, fmt.Sprint(seed), fmt.Sprint(n), fmt.Sprint(rep))
+	var ob strings.Builder
+	cmd.Stdout = &ob
+	if err := cmd.Start(); err != nil {
+		addFail("oracle", "the race-detector run could not start", "C03:race-run-failed", Job{}, []string{err.Error()})
+		return
+	}
+	done := make(chan error, 1)
+	go func() { done <- cmd.Wait() }()
+	select {
+	case <-done:
+	case <-time.After(limit):
+		// with plain goroutines (real RWMutex semantics, writer preference) the programs did not finish
+		cmd.Process.Kill()
+		<-done
+		exec.Command("pkill", "-f", bin+" run").Run()
+		addFail("oracle", "deadlock or livelock: concurrent programs on plain goroutines did not finish within the time limit", "C03:race-run-hang", Job{}, []string{"uninstrumented -race build, " + fmt.Sprint(n) + " programs"})
+		return
+	}
+	out := []byte(ob.String())
 	var r struct {
 		Findings []struct{ Program, Report string } `json:"findings"`
 	}
